@@ -4,8 +4,9 @@ import json, os, re, subprocess, time
 from concurrent.futures import ThreadPoolExecutor
 from . import core
 
-RE_BAD = re.compile(r'^<<"BAD", (\d+), "([^"]+)">>', re.M)
-RE_NOTE = re.compile(r'^<<"NOTE", (\d+), "([^"]+)">>', re.M)
+# TLC pretty-prints a long tuple over several lines: the patterns tolerate white space between the elements
+RE_BAD = re.compile(r'<<\s*"BAD",\s*(\d+),\s*"([^"]+)"\s*>>')
+RE_NOTE = re.compile(r'<<\s*"NOTE",\s*(\d+),\s*"([^"]+)"\s*>>')
 NOTES = {}        # trace path -> [(index0, note)]
 RE_DIFF = re.compile(r'^<<"DIFF", (\d+), (.*)>>$', re.M)
 
